@@ -44,14 +44,20 @@ def find_sites(fi, it):
 
 
 def find_dop(it):
-    """the linear (dispersion) operator by its role: the first top-level value that is polynomial in beta_2 and beta_3.
+    """the linear (dispersion) operator by its role: a top-level value polynomial in beta_2 and beta_3 - among several (temporaries
+    holding parts of it) the one that also carries the loss term, else the last assigned before it is used.
     -> (value, statement, variable name)"""
+    cands = []
     for f, stmt, name, val, conds, depth in it.assign_log:
         if depth == 0 and isinstance(val, Form):
             syms = {a[1] for a in val.atoms() if a[0] == "sym"}
             if "beta_2" in syms and "beta_3" in syms:
-                return val, stmt, name
-    return None, None, None
+                cands.append((val, stmt, name, "alpha" in syms))
+    if not cands:
+        return None, None, None
+    full = [c for c in cands if c[3]]
+    best = (full or cands)[0]
+    return best[0], best[1], best[2]
 
 
 def step_variable(fi, it, dop=None):
